@@ -506,6 +506,15 @@ def internal_tangency(rnd):
                 good = [b_ for b_ in cand if lo < 2 * float(b_) / (float(al) ** 2 * tl) < hi]
                 if good:
                     be = min(good, key=lambda b_: abs(float(b_) - want))
+        # a CLEAN tangency only: the curvature of the inner edge must differ clearly from that of the outer edge at the
+        # contact point (with nearly equal curvatures the two edges stay within rounding of each other over a stretch and
+        # meet again nearby - not the single, well-conditioned contact this family is about)
+        d1t = (float(tan[0]), float(tan[1]))
+        d2t = (float(X.second_deriv_exact(ex, ts)), float(X.second_deriv_exact(ey, ts)))
+        k_outer = (d1t[0] * d2t[1] - d1t[1] * d2t[0]) / (d1t[0] ** 2 + d1t[1] ** 2) ** 1.5
+        k_inner = 2 * float(be) / (float(al) ** 2 * (d1t[0] ** 2 + d1t[1] ** 2) ** 0.5)
+        if abs(k_inner - k_outer) < 0.4 * max(abs(k_inner), abs(k_outer)):
+            continue
         a = (touch[0] - al * tan[0] + be * nrm[0], touch[1] - al * tan[1] + be * nrm[1])
         c = (touch[0] + al * tan[0] + be * nrm[0], touch[1] + al * tan[1] + be * nrm[1])
         ctrl = (touch[0] - be * nrm[0], touch[1] - be * nrm[1])
@@ -614,6 +623,14 @@ def algebraic_misses(n1, d1, n2, d2):
             if na < ng:
                 return (i, j, na, ng)
     return None
+
+
+def tangency_key(what, text):
+    """failure key of the internal-tangency family: the documented limitation of the tangent handling (two contacts of the same
+    edge pair classified TANGENT_FIRST and TANGENT_SECOND => ValueError 'types should all match') has its own key"""
+    if "types should all match" in text:
+        return "tangency:mixed-tangent-types"
+    return "tangency:" + what
 
 
 def run_curved(n1, d1, n2, d2, entry, strategy, depth=4):
@@ -1119,6 +1136,7 @@ def main():
             break
         d1, d2 = rnd.randint(1, 4), rnd.randint(1, 4)
         n1, n2 = random_curved(rnd, d1), random_curved(rnd, d2)
+        is_tangency = False
         if k % 5 == 1:
             # no edge meets an edge, and the control points mislead: a bulged quadratic inside the straight triangle that
             # its edge control points stick out of / a small straight triangle around one of those control points
@@ -1135,6 +1153,7 @@ def main():
             # outside, depending on the curvatures at the contact point
             tang = internal_tangency(rnd)
             if tang is not None:
+                is_tangency = True
                 n1, d1, n2, d2 = tang[1], 2, tang[0], 3
                 if rnd.random() < 0.5:
                     n1, d1, n2, d2 = n2, d2, n1, d1
@@ -1167,6 +1186,8 @@ def main():
                       degrees="%d,%d" % (d1, d2), outcome=(what or text))
             if what is not None:
                 key = "curved:" + what + ("" if strategy == "geometric" or what.startswith("algebraic") else ":" + strategy)
+                if is_tangency and strategy == "geometric":
+                    key = tangency_key(what, text)
                 fails.add(key, "curved triangles of degree %d and %d (%s strategy, %s level): %s" % (d1, d2, strategy, entry, text),
                             {"kind": "curved", "n1": C.jfr(n1), "d1": d1, "n2": C.jfr(n2), "d2": d2, "entry": entry, "strategy": strategy})
             elif text.startswith("regions"):
@@ -1184,7 +1205,7 @@ def main():
             what, text = run_curved(n1, d1, n2, d2, "function", "geometric")
             res.count(("tangency", str(n1), str(n2)), nontrivial=True, space="tangency-function-geometric", outcome=(what or text))
             if what is not None:
-                fails.add("curved:" + what, "internal tangency, degrees %d and %d: %s" % (d1, d2, text),
+                fails.add(tangency_key(what, text), "internal tangency, degrees %d and %d: %s" % (d1, d2, text),
                           {"kind": "curved", "n1": C.jfr(n1), "d1": d1, "n2": C.jfr(n2), "d2": d2, "entry": "function", "strategy": "geometric"})
     res.notes.append("wall: lattice %.1fs, curved %.1fs" % (t_curved - t_start, time.time() - t_curved))
     res.emit()
